@@ -1,5 +1,11 @@
+/-
+Property C13 — leaving a `Calibration` context, normally or through an exception, restores the
+global module-hook registries and the torch-function mode stack; the inference / quantization
+entry points write no module state.  Helper lemmas: `Proofs/C13/Lemmas.lean`.
+-/
 import Quanto.Calib
 import Quanto.Generated
+import Proofs.C13.Lemmas
 namespace Quanto
 
 /-- the inference and quantization entry points contain no attribute write and no in-place call
@@ -8,5 +14,111 @@ theorem C13_no_writes_in_inference :
     (Generated.writeSets.filter (fun p => p.1 ≠ "QModuleMixin.freeze")).all (fun p => p.2.isEmpty) = true
     ∧ Generated.writeSets.lookup "QModuleMixin.freeze" = some ["self.weight"]
     ∧ Generated.writeSetsMissing = [] := by decide
+
+/-- U1: running any well-nested trace of contexts (each exit possibly taken by an exception)
+restores both hook registries and the mode stack; only the handle-id counter advances -/
+theorem C13_scoped (t : Trace) (g : HookState) (hg : g.Fresh) :
+    let g' := runTrace g t
+    g'.preHooks = g.preHooks ∧ g'.postHooks = g.postHooks ∧ g'.modeStack = g.modeStack ∧
+      g.nextId ≤ g'.nextId ∧ g'.Fresh := by
+  induction t generalizing g with
+  | nil => exact ⟨rfl, rfl, rfl, le_refl _, hg⟩
+  | ctx c inner next ihI ihN =>
+    simp only [runTrace_ctx]
+    have hf1 := HookState.enter_fresh hg c
+    obtain ⟨i1, i2, i3, i4, i5⟩ := ihI (g.enter c).1 hf1
+    rw [HookState.enter_snd]
+    generalize runTrace (g.enter c).1 inner = g2 at i1 i2 i3 i4 i5 ⊢
+    have i4' : g.nextId + 2 ≤ g2.nextId := i4
+    obtain ⟨e1, e2, e3, e4⟩ := HookState.exit_of_top hg c i1 i2 i3
+    have hf3 : (g2.exit (g.nextId, g.nextId + 1)).Fresh := by
+      constructor
+      · intro p hp; rw [e1] at hp; rw [e4]; have := hg.1 p hp; omega
+      · intro p hp; rw [e2] at hp; rw [e4]; have := hg.2 p hp; omega
+    obtain ⟨n1, n2, n3, n4, n5⟩ := ihN _ hf3
+    exact ⟨n1.trans e1, n2.trans e2, n3.trans e3, by omega, n5⟩
+
+/-- U1 from the initial state of a fresh interpreter -/
+theorem C13_scoped_initial (t : Trace) :
+    let g' := runTrace ⟨[], [], 0, []⟩ t
+    g'.preHooks = [] ∧ g'.postHooks = [] ∧ g'.modeStack = [] := by
+  have h := C13_scoped t ⟨[], [], 0, []⟩ ⟨by simp, by simp⟩
+  exact ⟨h.1, h.2.1, h.2.2.1⟩
+
+/-- U2: entering and immediately leaving restores everything but the id counter -/
+theorem C13_exit_removes_only_own (g : HookState) (hg : g.Fresh) (c : Nat) :
+    (g.enter c).1.exit (g.enter c).2 = { g with nextId := g.nextId + 2 } := by
+  obtain ⟨e1, e2, e3, e4⟩ :=
+    HookState.exit_of_top (g2 := (g.enter c).1) hg c rfl rfl rfl
+  rw [HookState.enter_snd]
+  generalize (g.enter c).1.exit (g.nextId, g.nextId + 1) = r at e1 e2 e3 e4
+  cases r
+  simp only at e1 e2 e3 e4
+  subst e1 e2 e3 e4
+  rfl
+
+/-- U3: the event machine used by the correspondence harness computes the same states as the
+structural definition, under any stack of already open contexts -/
+theorem C13_events_agree (t : Trace) (g : HookState) (stack : List (Nat × Nat)) :
+    (Trace.events t).foldl HookRun.step ⟨g, stack⟩ = ⟨runTrace g t, stack⟩ := by
+  induction t generalizing g stack with
+  | nil => rfl
+  | ctx c inner next ihI ihN =>
+    rw [Trace.events, List.foldl_cons, List.foldl_append]
+    have hstep : HookRun.step ⟨g, stack⟩ (.enter c) = ⟨(g.enter c).1, (g.enter c).2 :: stack⟩ := rfl
+    rw [hstep, ihI, List.foldl_cons]
+    have hexit : HookRun.step ⟨runTrace (g.enter c).1 inner, (g.enter c).2 :: stack⟩ .exit =
+        ⟨(runTrace (g.enter c).1 inner).exit (g.enter c).2, stack⟩ := rfl
+    rw [hexit, ihN, runTrace_ctx]
+
+/-- U4: the exit of a nested context leaves the hooks and the mode of the outer context installed -/
+theorem C13_nested_inner_exit_keeps_outer (g : HookState) (hg : g.Fresh) (a b : Nat) :
+    let g1 := (g.enter a).1
+    let g2 := (g1.enter b).1
+    let h2 := (g1.enter b).2
+    (g2.exit h2).preHooks = g1.preHooks ∧ (g2.exit h2).postHooks = g1.postHooks ∧
+      (g2.exit h2).modeStack = g1.modeStack := by
+  intro g1 g2 h2
+  have h := C13_exit_removes_only_own g1 (HookState.enter_fresh hg a) b
+  show ((g1.enter b).1.exit (g1.enter b).2).preHooks = _ ∧
+    ((g1.enter b).1.exit (g1.enter b).2).postHooks = _ ∧
+    ((g1.enter b).1.exit (g1.enter b).2).modeStack = _
+  rw [h]
+  exact ⟨rfl, rfl, rfl⟩
+
+/-- the outer hooks really are there after the inner exit (and are removed by the outer exit) -/
+theorem C13_nested_outer_present (g : HookState) (hg : g.Fresh) (a b : Nat) :
+    let g1 := (g.enter a).1
+    let g3 := (g1.enter b).1.exit (g1.enter b).2
+    (g.nextId, a) ∈ g3.preHooks ∧ (g.nextId + 1, a) ∈ g3.postHooks ∧ g3.modeStack.head? = some a ∧
+      (g3.exit (g.enter a).2).preHooks = g.preHooks ∧
+      (g3.exit (g.enter a).2).postHooks = g.postHooks ∧
+      (g3.exit (g.enter a).2).modeStack = g.modeStack := by
+  intro g1 g3
+  obtain ⟨k1, k2, k3⟩ := C13_nested_inner_exit_keeps_outer g hg a b
+  have k1' : g3.preHooks = g.preHooks ++ [(g.nextId, a)] := k1
+  have k2' : g3.postHooks = g.postHooks ++ [(g.nextId + 1, a)] := k2
+  have k3' : g3.modeStack = a :: g.modeStack := k3
+  obtain ⟨e1, e2, e3, -⟩ := HookState.exit_of_top hg a k1' k2' k3'
+  refine ⟨by rw [k1']; simp, by rw [k2']; simp, by rw [k3']; rfl, e1, e2, e3⟩
+
+/-! ### non-vacuity -/
+
+/-- `with C1: (with C2: pass); with C3: pass` from a fresh interpreter: six handle ids consumed,
+registries and mode stack empty again -/
+example : runTrace ⟨[], [], 0, []⟩ (.ctx 1 (.ctx 2 .nil .nil) (.ctx 3 .nil .nil)) = ⟨[], [], 6, []⟩ := by
+  decide
+
+/-- the hypotheses of `C13_scoped` are satisfiable on a non-trivial state and its conclusion is
+the concrete restored state -/
+example :
+    let g : HookState := ⟨[(0, 7)], [(1, 7)], 2, [7]⟩
+    let g' := runTrace g (.ctx 1 (.ctx 2 .nil .nil) (.ctx 3 .nil .nil))
+    g.Fresh ∧ g' = ⟨[(0, 7)], [(1, 7)], 8, [7]⟩ := by
+  refine ⟨⟨by decide, by decide⟩, by decide⟩
+
+/-- inside the nested context all three owners are registered, in order -/
+example : (((HookState.mk [] [] 0 []).enter 1).1.enter 2).1 =
+    ⟨[(0, 1), (2, 2)], [(1, 1), (3, 2)], 4, [2, 1]⟩ := by decide
 
 end Quanto
